@@ -263,7 +263,9 @@ pub fn sub_args(
 
             match allocator.sexp(first_pre) {
                 SExp::Pair(_, _) => {
-                    first = sub_args(allocator, first_pre, new_args)?;
+                    // ((X) A B ...) applies X to the operands as written:
+                    // there is no path in this form to substitute.
+                    return Ok(sexp);
                 }
                 SExp::Atom => {
                     // Atom is a reflection of first_pre.
@@ -341,6 +343,14 @@ pub fn var_change_optimizer_cons_eval(
             };
 
             let new_eval_sexp_args = sub_args(allocator, *original_call, *original_args)?;
+
+            // ((X) A B ...) does not look at its environment: it stands for
+            // itself, and its operands are not code to optimise.
+            if let SExp::Pair(head, _) = allocator.sexp(new_eval_sexp_args) {
+                if let SExp::Pair(_, _) = allocator.sexp(head) {
+                    return Ok(new_eval_sexp_args);
+                }
+            }
 
             if DIAG_OPTIMIZATIONS {
                 println!(
@@ -693,7 +703,13 @@ pub fn optimize_sexp_(
             SExp::Atom => {
                 return Ok(r);
             }
-            SExp::Pair(_, _) => {
+            SExp::Pair(head, _) => {
+                // ((X) A B ...) applies X to the operands as written: they are
+                // data, and none of the rewrites below may treat them as code.
+                if let SExp::Pair(_, _) = allocator.sexp(head) {
+                    return Ok(r);
+                }
+
                 for opt in optimizers.iter() {
                     name.clone_from(&opt.name);
                     match opt.invoke(allocator, memo, r, eval_f.clone()) {
